@@ -143,7 +143,17 @@ func (d *Discharger) Close() {
 	}
 }
 
+// procSem bounds the number of solver processes running at once to the number of cores, so that a solver's
+// wall-clock limit is not eaten by its neighbours.
+var procSem = make(chan struct{}, 16)
+
 func runSolver(ctx context.Context, s solverSpec, file string, timeout int) (string, string, float64) {
+	select {
+	case procSem <- struct{}{}:
+		defer func() { <-procSem }()
+	case <-ctx.Done():
+		return "unknown", "cancelled", 0
+	}
 	t0 := time.Now()
 	args := s.args(file, timeout)
 	cctx, cancel := context.WithTimeout(ctx, time.Duration(timeout+2)*time.Second)
@@ -288,33 +298,20 @@ func (d *Discharger) Discharge(w *World, o *Obligation) {
 		return
 	}
 	if sat == nil {
-		// later stages: pairs of back ends in order of past success, so that a hard query gets most of a core
-		pairs := [][]variant{
-			{{solvers[0], true, d.timeout}, {solvers[2], false, d.timeout}},
-			{{solvers[1], true, d.timeout}, {solvers[0], false, d.timeout}},
-			{{solvers[2], true, d.timeout}, {solvers[1], false, d.timeout}},
-		}
-		for _, pr := range pairs {
-			var vs []variant
-			for _, v := range pr {
-				if v.uf && !hasStr {
-					continue
-				}
-				vs = append(vs, v)
-			}
-			if len(vs) == 0 {
-				continue
-			}
-			var e2 []string
-			done, sat, e2 = runStage(vs)
-			if done {
-				return
-			}
-			errs = append(errs, e2...)
-			if sat != nil {
-				break
+		// second stage: every back end on both encodings at once with the full limit; the first answer wins
+		var vs []variant
+		for _, sv := range []int{0, 2, 1} {
+			vs = append(vs, variant{solvers[sv], false, d.timeout})
+			if hasStr {
+				vs = append(vs, variant{solvers[sv], true, d.timeout})
 			}
 		}
+		var e2 []string
+		done, sat, e2 = runStage(vs)
+		if done {
+			return
+		}
+		errs = append(errs, e2...)
 	}
 	if sat != nil && o.Kind == "vacuity" {
 		o.Status = "failed"
